@@ -4,6 +4,7 @@
 package gomatrixserverlib
 
 import (
+	"strings"
 	"context"
 	"fmt"
 	"sort"
@@ -193,6 +194,9 @@ func c14CheckChain(ctx *vfCtx, c c14ChainCase) {
 		}
 	}
 	ctx.Class("expect:reject:" + why)
+	if strings.HasSuffix(v.Why, "A0.auth-event-is-not-a-state-event") {
+		ctx.Class("expect:reject:" + why + "/names-a-non-state-auth-event")
+	}
 	if err == nil {
 		ctx.Fail("C14/auth-chain/accepted-although/"+why, "accepted although %s", v.Why)
 	}
